@@ -420,9 +420,41 @@ fn new_vocabulary(diff_all: &str) -> (Vec<String>, Vec<String>) {
         n >= 1 && n <= 12 && !w.chars().any(|c| c.is_whitespace() || c == '{' || c == '}' || c == '/' || c == '\\' || c == '"' || c == '\'') && !w.starts_with("eval_") && !w.chars().all(|c| c.is_ascii_digit() || c == '.')
     };
     let mut recent_chars: Vec<(usize, char)> = Vec::new();
+    let mut in_fence = false;
+    let cut_example = |ex: &str, examples: &mut Vec<String>| {
+        // the expression itself, and the part before a result annotation (`= 1`, `=> 1`, `-> 1`, `// ...`)
+        let ex = ex.trim();
+        if ex.is_empty() || ex.chars().count() > 80 {
+            return;
+        }
+        examples.push(ex.to_string());
+        for sep in [" = ", " => ", " -> ", " // ", " == "] {
+            if let Some(i) = ex.find(sep) {
+                let head = ex[..i].trim();
+                if !head.is_empty() {
+                    examples.push(head.to_string());
+                }
+            }
+        }
+    };
     for (ln, l) in diff_all.lines().enumerate() {
         if !l.starts_with('+') || l.starts_with("+++") {
             continue;
+        }
+        {
+            // fenced code blocks of documentation: every line is an example
+            let t = l[1..].trim_start();
+            let t = t.strip_prefix("//!").or_else(|| t.strip_prefix("///")).unwrap_or(t).trim();
+            if t.starts_with("```") {
+                in_fence = !in_fence;
+                continue;
+            }
+            if in_fence {
+                if !t.contains("eval_") && !t.contains("::") && !t.starts_with("use ") && !t.starts_with("let ") {
+                    cut_example(t, &mut examples);
+                }
+                continue;
+            }
         }
         let body: Vec<char> = l[1..].chars().collect();
         let mut i = 0;
@@ -479,18 +511,37 @@ fn new_vocabulary(diff_all: &str) -> (Vec<String>, Vec<String>) {
                         } else if wordish(&span) {
                             words.push(span.clone());
                         }
-                        if span.contains('(') || span.chars().any(|c| "+-*/^".contains(c)) {
-                            let ex = span.split('=').next().unwrap_or("").trim().to_string();
-                            if !ex.is_empty() {
-                                examples.push(ex.clone());
-                                examples.push(ex.replace("(x)", "(@)").replace("(x,", "(@,").replace(" x", " @"));
-                            }
+                        if span.contains('(') || span.chars().any(|c| "+-*/^=;@".contains(c)) {
+                            cut_example(&span, &mut examples);
+                            cut_example(&span.replace("(x)", "(@)").replace("(x,", "(@,").replace(" x", " @").replace("expr", "@+1"), &mut examples);
                         }
                     }
                     i = j + 1;
                 }
                 _ => i += 1,
             }
+        }
+    }
+    // atoms: a quoted symbol followed by letters / digits somewhere in an example (`$r` in `$r=2+@; pi*$r^2`)
+    {
+        let symbols: Vec<char> = words.iter().filter(|w| w.chars().count() == 1).filter_map(|w| w.chars().next()).filter(|c| !c.is_alphanumeric() && !"+-*/^(),.@ ".contains(*c)).collect();
+        let mut atoms: Vec<String> = Vec::new();
+        for ex in examples.iter() {
+            let cs: Vec<char> = ex.chars().collect();
+            for i in 0..cs.len() {
+                if symbols.contains(&cs[i]) {
+                    let tail: String = cs[i + 1..].iter().take_while(|c| c.is_alphanumeric()).collect();
+                    if !tail.is_empty() && tail.chars().count() <= 6 {
+                        atoms.push(format!("{}{}", cs[i], tail));
+                    }
+                }
+            }
+        }
+        atoms.sort();
+        atoms.dedup();
+        atoms.truncate(4);
+        for a in atoms.into_iter().rev() {
+            words.insert(0, a);
         }
     }
     // only what the old text does not already contain; known names of the library are not new either
@@ -509,7 +560,7 @@ fn new_vocabulary(diff_all: &str) -> (Vec<String>, Vec<String>) {
     }
     // words with a shape of their own (a bracket, a colon, a symbol) first; plain short letter groups last
     out.sort_by_key(|w| (w.chars().all(|c| c.is_ascii_alphanumeric()) as u8, (w.chars().count() < 2) as u8));
-    out.truncate(10);
+    out.truncate(12);
     examples.sort();
     examples.dedup();
     examples.truncate(24);
@@ -917,6 +968,9 @@ pub fn check(o: &CheckOpts) -> i32 {
             "change focus: tree differs from {} in {:?}; evaluators {:?}, tokens {:?} -> {} of {} function buckets preferred",
             hints.base.chars().take(10).collect::<String>(), hints.files, hints.evs.iter().map(|e| e.name()).collect::<Vec<_>>(), hints.tokens, ix.hint_buckets.len(), ix.fn_buckets.len()
         );
+        if !hints.new_words.is_empty() || !hints.new_examples.is_empty() {
+            println!("  quoted by the added lines: words {:?}, examples {:?} -> {} pool entries", hints.new_words, hints.new_examples, ix.new_words.len());
+        }
     }
     let ix = ix;
     println!(
@@ -1604,7 +1658,7 @@ pub fn selftest(o: &CheckOpts, seeds: usize) -> i32 {
                 rm += 1;
                 if rm <= 6 {
                     if std::env::var("SC_DEBUG_DUMP").is_ok() {
-                        let _ = std::fs::write(format!("/root/scratch/mismatch_{}.json", k), serde_json::to_string(&json!({"case": cases[k].to_json(), "rec": a.traces.get(k).map(|(_, r)| r.clone())})).unwrap_or_default());
+                        let _ = std::fs::write(format!("/root/scratch/mismatch_{}.json", k), serde_json::to_string(&json!({"case": cases[k].to_json(), "rec": a.traces.get(k).map(|(_, r)| r.clone()), "replayed": r.as_ref().map(|r| r.rec.clone())})).unwrap_or_default());
                     }
                     println!("  replay mismatch: case {} want {} got {} status {:?} policy {:?}", k, want[k], h, r.as_ref().map(|r| r.status.clone()), a.traces.get(k).and_then(|(_, r)| r.get("pn").cloned()));
                 }
